@@ -1,6 +1,7 @@
 """Run one shard of one check in a fresh interpreter:  python -m rvmon.worker <check> <spec.json> <out.json>"""
 import importlib
 import json
+import os
 import sys
 import faulthandler
 
@@ -14,6 +15,13 @@ def main():
         spec = json.load(f)
     faulthandler.enable()
     res = Result()
+    cov = None
+    if os.environ.get("RVMON_COVERAGE"):
+        # development aid (tools/cov.sh): which lines of rv do the workloads reach?  Never set by the registered commands.
+        import coverage
+        cov = coverage.Coverage(data_file=os.path.join(os.environ["RVMON_COVERAGE"], f".coverage.{check}.{os.getpid()}"),
+                                include=[os.path.join(env.SRC, "rv", "*")], branch=True)
+        cov.start()
     try:
         env.setup()
     except env.WrongSource as e:
@@ -40,11 +48,13 @@ def main():
                               {"shard": spec})
             else:
                 raise
+    if cov is not None:
+        cov.stop()
+        cov.save()
     for v in res.violations:
         v["shard_spec"] = spec  # lets --replay re-run exactly the shard that produced the witness
     with open(out_path + ".tmp", "w") as f:
         json.dump(res.as_dict(), f, default=str)
-    import os
     os.replace(out_path + ".tmp", out_path)
 
 
